@@ -527,6 +527,8 @@ func (vc *FnVC) step(fr *frame, st *state, b *ssa.BasicBlock, ins ssa.Instructio
 			vc.oblige("index", vc.descOf(x.X), st.reach, fmt.Sprintf("(and (<= 0 %s) (< %s (str.len %s)))", i.t, i.t, v.t), vc.safetyTags(fr), vc.posOf(x))
 			r := fr.set(vc, x, fmt.Sprintf("(str.to_code (str.at %s %s))", v.t, i.t))
 			vc.assume(st.reach, fmt.Sprintf("(and (<= 0 %s) (<= %s 255))", r.t, r.t))
+			r.strAt = fmt.Sprintf("(str.at %s %s)", v.t, i.t)
+			fr.vals[x] = r
 		default:
 			vc.unsupported("Index on %s", x.X.Type())
 		}
@@ -867,7 +869,11 @@ func (vc *FnVC) binop(fr *frame, st *state, x *ssa.BinOp) {
 			t = fmt.Sprintf("(let ((a!0 %s) (b!0 %s)) (ite (>= a!0 0) (mod a!0 (abs b!0)) (- (mod (- a!0) (abs b!0)))))", at, bt)
 		}
 	case token.EQL, token.NEQ:
-		t = vc.equal(xt, at, bt)
+		if cmp, ok := charCompare(a, b); ok {
+			t = cmp
+		} else {
+			t = vc.equal(xt, at, bt)
+		}
 		if x.Op == token.NEQ {
 			t = "(not " + t + ")"
 		}
@@ -1024,6 +1030,8 @@ func (vc *FnVC) lookup(fr *frame, st *state, x *ssa.Lookup) {
 		vc.oblige("index", vc.descOf(x.X), st.reach, fmt.Sprintf("(and (<= 0 %s) (< %s (str.len %s)))", k.t, k.t, m.t), vc.safetyTags(fr), vc.posOf(x))
 		r := fr.set(vc, x, fmt.Sprintf("(str.to_code (str.at %s %s))", m.t, k.t))
 		vc.assume(st.reach, fmt.Sprintf("(and (<= 0 %s) (<= %s 255))", r.t, r.t))
+		r.strAt = fmt.Sprintf("(str.at %s %s)", m.t, k.t)
+		fr.vals[x] = r
 	default:
 		vc.unsupported("Lookup on %s", x.X.Type())
 	}
@@ -1300,6 +1308,14 @@ func (vc *FnVC) specModSet(c *ssa.CallCommon) (modSet, bool) {
 			case *EUnary:
 				// *p : by-reference argument, handled by the caller through the argument's location
 				ms.pureArgs = false
+			case *EIdent:
+				if gt, ok := vc.eng.db.GhostVars[x.Name]; ok {
+					h := "G:ghost." + x.Name
+					vc.eng.regHeap(h, heapDesc{kind: "raw", raw: ghostSort(gt)})
+					ms.heaps[h] = true
+				} else {
+					return modSet{all: true}, true
+				}
 			default:
 				return modSet{all: true}, true
 			}
